@@ -149,6 +149,30 @@ def replay_resurrector(w, rec):
     _pump(60)
     if len(f2.made) != n2:
       bad.append('%d connection attempt(s) after Close() of a down endpoint' % (len(f2.made) - n2))
+    # (e) Close while a reconnection attempt is blocked in the connect itself
+    class Hanging(Under):
+      def Open(self):
+        self.opens += 1
+        self.pending = AsyncResult()
+        return self.pending
+    class HFactory(Factory):
+      def CreateSink(self, props):
+        if not self.made:
+          return Factory.CreateSink(self, props)
+        u = Hanging(False)
+        self.made.append(u)
+        return u
+    f4 = HFactory([True])
+    r4 = R.ResurrectorSink(f4, Props(), {SinkProperties.Endpoint: Ep(), SinkProperties.Label: 'replay'})
+    r4.Open()
+    f4.made[0].on_faulted.Set('down')
+    _pump(20)
+    if len(f4.made) == 2:              # the retry loop is now waiting for the hanging connect
+      r4.Close()
+      n4 = len(f4.made)
+      _pump(80)
+      if len(f4.made) != n4:
+        bad.append('Close() while a reconnection attempt was waiting for its connect: %d further attempt(s) were made (the kill was swallowed and the retry loop went on)' % (len(f4.made) - n4))
   finally:
     R.gevent = saved
   return bool(bad), '\n'.join(bad) or 'back-off grows to the cap, every outage is retried, down endpoints fail fast, Close stops the retries'
